@@ -621,6 +621,52 @@ fn gen_structured(rng: &mut Rng, k: &Knobs) -> Yaml {
         }
         det.insert(ystr("A"), Yaml::Sequence(entries));
         cond = (*rng.pick(&["A", "not A", "all(A)", "of(A, 2)", "of(A, 0)"])).to_owned();
+    } else if rng.chance(1, 8) {
+        // T8: nested blocks on ONE field side by side, one of them holding an all() over needles
+        // that different entries of an array can satisfy (a nested all() is matched across the
+        // entries; merging blocks must not pull it under another operator)
+        let nest = *rng.pick(&NEST_FIELDS);
+        let inner = *rng.pick(&["d", "a"]);
+        let needles: Vec<Yaml> = (0..2 + rng.below(2))
+            .map(|i| {
+                let (kind, ic) = (rng.below(5), if rng.chance(1, 2) { i % 2 == 1 } else { rng.chance(1, 4) });
+                ystr(&family_pattern(rng, kind, ic))
+            })
+            .collect();
+        let mut blocks = vec![];
+        let mut first = Mapping::new();
+        first.insert(ystr(&format!("all({})", inner)), Yaml::Sequence(needles));
+        blocks.push(first);
+        for f in ["e", "g"].iter().take(1 + rng.below(2)) {
+            let mut m = Mapping::new();
+            let v = if rng.chance(1, 2) { Yaml::Number(gen_int(rng, k).into()) } else { ystr(&family_pattern(rng, 3, false)) };
+            m.insert(ystr(f), v);
+            blocks.push(m);
+        }
+        if rng.chance(1, 2) {
+            rng.shuffle(&mut blocks);
+        }
+        let wrap = |m: Mapping| {
+            let mut o = Mapping::new();
+            o.insert(ystr(nest), Yaml::Mapping(m));
+            Yaml::Mapping(o)
+        };
+        if rng.chance(1, 2) {
+            // one sequence identifier
+            det.insert(ystr("A"), Yaml::Sequence(blocks.into_iter().map(wrap).collect()));
+            cond = (*rng.pick(&["A", "A or A", "not A", "all(A)", "of(A, 1)", "of(A, 2)"])).to_owned();
+        } else {
+            let mut names = vec![];
+            for (i, b) in blocks.into_iter().enumerate() {
+                det.insert(ystr(IDENT_NAMES[i]), wrap(b));
+                names.push(IDENT_NAMES[i].to_owned());
+            }
+            // three operands make a group, two stay a binary expression
+            if names.len() == 2 {
+                names.push(names[rng.below(2)].clone());
+            }
+            cond = names.join(if rng.chance(1, 2) { " and " } else { " or " });
+        }
     } else if rng.chance(1, 3) {
         // T3: one pattern text under both case flags, on several fields, or-ed
         let n = 2 + rng.below(2);
